@@ -43,7 +43,7 @@ type st struct {
 	nNamed int
 }
 
-var re2Letters = []rune("abcxyAB01 _-\nksKS")
+var re2Letters = []rune("abcxyAB01 _-\nksKS.@\t")
 
 func (s *st) lit() rune {
 	if rapid.IntRange(0, 7).Draw(s.t, "wide") == 0 {
@@ -73,8 +73,33 @@ func (s *st) class() *ast.Node {
 	return ast.Class(e)
 }
 
+// escaped draws a caseless literal written with one of the escape notations both dialects accept
+// (control-character names, \xHH, \x{H..}, \0OO octal, backslash + punctuation: the RE2 option
+// gives every escape a literal default).
+func (s *st) escaped() *ast.Node {
+	style := rapid.SampledFrom([]string{"name", "x2", "xb", "oct", "punct"}).Draw(s.t, "escstyle")
+	var pool []rune
+	switch style {
+	case "name":
+		pool = []rune("\a\f\v\t\n\r")
+	case "x2":
+		pool = []rune("\x00\x07\t\n -_.@0159~\x7f\u00a0\u00b7\u00ff")
+	case "oct":
+		pool = []rune("\x00\x07\t\n -.0159!#%&,:;<=>")
+	case "punct":
+		pool = []rune("_-.@!#%&~`'\"<>/:;,=")
+	default:
+		pool = []rune("\x00\t\n -_.@0159\u00a0日\U0001F600\U0010FFFF\uFFFD")
+	}
+	n := ast.Lit(rapid.SampledFrom(pool).Draw(s.t, "escrune"))
+	n.S = style
+	return n
+}
+
 func (s *st) atom() *ast.Node {
-	switch rapid.IntRange(0, 11).Draw(s.t, "atom") {
+	switch rapid.IntRange(0, 12).Draw(s.t, "atom") {
+	case 12:
+		return s.escaped()
 	case 0:
 		return ast.Dot()
 	case 1, 2:
